@@ -1,8 +1,20 @@
-(* EsSpec.v — the vocabulary of properties C06 / C07 (and C05), written on trees and configurations
-   WITHOUT reference to the builder or the nesting checker.  Definitions only.
+(* EsSpec.v — the vocabulary of properties C06 / C07 (and C05), written on trees and configurations.
+   Definitions only.
 
-   The only thing shared with the model is the normalisation of field specifications (EsSpecs.v):
-   "what is declared" is the set of dotted paths the specification denotes. *)
+   What is shared with the model, and what is not:
+   * nothing here calls the builder's visitor (EsBuild.visit), its nesting decision (EsBuild.split_nested /
+     the derived environment es_env) or the nesting checker (EsCheck): which clause a modifier applies to, which
+     field gets a nested clause, what is flattened, what raises, are all decided here on the tree and on the
+     DECLARED paths alone (`declared_nested`, `nested_parents`, `crosses_nested`, `single_leaf`);
+   * shared with the model: the normalisation of field specifications (EsSpecs.v: "what is declared" is the
+     set of dotted paths the specification denotes), the record type of a leaf item with its constructors and
+     setters (EsBuild.mk_word / mk_phrase / mk_range and the leaf_set_ setters), the rendering of ONE leaf record to its
+     clause (EsBuild.leaf_json), and the small context record `ectx` with its accessors (field prefix,
+     analysed flag, inherited name).
+   History: until the audit that found F22 the predicate deciding "this modifier reaches a single leaf clause"
+   called EsBuild.split_nested, so the expected leaves followed the builder exactly where it deviates
+   (a ^ / ~ above a field that gets a nested clause is dropped).  It no longer does: see `single_leaf`,
+   `direct_leaf`, `modifier_over_nested`. *)
 Require Import Base Decimal Tree Json EsSpecs EsCheck EsBuild.
 
 (* ---------------------------------------------------------------- supported trees *)
@@ -203,9 +215,10 @@ Fixpoint no_named_flattened (t : item) : bool :=
 (* The leaf items a tree should give, in document order, computed directly on the tree: one per
    word / phrase / range, addressed to the enclosing field names joined by dots (the default field when
    there is none), with the term's text, the kind chosen from the analysed / not analysed table, the
-   modifiers of the enclosing ~ and ^ when they apply to a single clause, the name of the nearest named
-   enclosing element, and zero_terms_query 'all' exactly on the clauses that are direct items of a
-   conjunction.  No flattening, no exceptions, no E-tree structure.  (Records are built with the E-item
+   modifiers of the enclosing ~ and ^ when they apply to a single clause (`single_leaf`), the name of the
+   nearest named enclosing element, and zero_terms_query 'all' exactly on the clauses that are direct items of
+   a conjunction (`direct_leaf`: a clause inside a nested clause is an item of the nested clause, not of the
+   conjunction).  No flattening, no exceptions, no E-tree structure, no call to the builder.  (Records are built with the E-item
    constructors mk_word / mk_phrase / mk_range of EsBuild.v; their JSON is EsBuild.leaf_json.) *)
 Definition word_leaf (cfg : es_config) (t : item) (v : str) (cx : ectx) : leaf :=
   mk_word v (if ctx_is_analyzed cfg cx
@@ -225,20 +238,61 @@ Definition field_ctx (cfg : es_config) (t : item) (n : str) (cx : ectx) : ectx :
             (Some (negb (mem_str (dotted (field_prefix cx ++ split_on c_dot n)) (c_not_analyzed cfg))))
             (x_name cx)).
 
-(* does the element translate to a single leaf clause (so that ~, ^ and the zero_terms_query of an
-   enclosing conjunction reach it) ?  A field that gets wrapped in a nested clause does not. *)
-Fixpoint leafy (cfg : es_config) (env : es_env) (t : item) (cx : ectx) : bool :=
+(* ---- nested boundaries, read from the declaration alone *)
+(* the parents of the declared nested paths: the paths that get a `nested` clause *)
+Definition nested_parents (cfg : es_config) : list str := map parent_path (declared_nested cfg).
+
+(* a search field whose name has the components `names`, met under the field path `pre`, crosses a nested
+   boundary (its expression is wrapped in a nested clause): pre ++ (some non-empty initial part of names) is
+   the parent of a declared nested path *)
+Definition crosses_nested (cfg : es_config) (pre names : list str) : bool :=
+  existsb (fun k => mem_str (dotted (pre ++ firstn (S k) names)) (nested_parents cfg))
+          (seq 0 (length names)).
+
+(* the element is ONE word / phrase / range, possibly under parentheses, field wrappers and modifiers: a ~ or ^
+   placed above it applies to that single clause.  Purely syntactic: no configuration, no nesting. *)
+Fixpoint single_leaf (t : item) : bool :=
   match t with
   | Term KRegex _ _ => false
   | Term _ _ _ => true
   | Range _ _ _ _ _ => true
-  | SearchField _ n e =>
-      leafy cfg env e (field_ctx cfg t n cx) &&
-      match split_nested env n cx with None => true | Some _ => false end
-  | Grp _ _ e | Boost _ e _ _ => leafy cfg env e (propagate_name t cx)
-  | Fuzzy _ x _ _ | Proximity _ x _ _ => leafy cfg env x (propagate_name t cx)
+  | SearchField _ _ e | Grp _ _ e | Boost _ e _ _ => single_leaf e
+  | Fuzzy _ x _ _ | Proximity _ x _ _ => single_leaf x
   | _ => false
   end.
+
+(* on the way from the element down to its single leaf (through parentheses, field wrappers, modifiers) some
+   search field crosses a nested boundary; `pre` = the enclosing field path *)
+Fixpoint chain_crosses (cfg : es_config) (pre : list str) (t : item) : bool :=
+  match t with
+  | SearchField _ n e =>
+      crosses_nested cfg pre (split_on c_dot n) || chain_crosses cfg (pre ++ split_on c_dot n) e
+  | Grp _ _ e | Boost _ e _ _ => chain_crosses cfg pre e
+  | Fuzzy _ x _ _ | Proximity _ x _ _ => chain_crosses cfg pre x
+  | _ => false
+  end.
+
+(* the clause of the element is a DIRECT item of the enclosing bool clause (so that the zero_terms_query of an
+   enclosing conjunction is its): a single leaf with no nested clause in between *)
+Definition direct_leaf (cfg : es_config) (pre : list str) (t : item) : bool :=
+  single_leaf t && negb (chain_crosses cfg pre t).
+
+(* F22's class: somewhere in the tree a ^ / ~ (Boost, Fuzzy, Proximity) stands above a single leaf from which
+   it is separated by a search field that crosses a nested boundary — `(a.b:x)^2`, `(a:(b:x))^2` with a.b
+   declared nested; NOT `a.b:x^2`, `a.b:(x)^2`, `a:(b:x)^2`, `a:((b:x)^2)` (the modifier is below the field
+   that crosses).  On exactly these trees the builder drops the modifier. *)
+Fixpoint mod_over_nested_at (cfg : es_config) (pre : list str) (t : item) : bool :=
+  match t with
+  | Term _ _ _ | NoneItem _ | Range _ _ _ _ _ => false
+  | SearchField _ n e => mod_over_nested_at cfg (pre ++ split_on c_dot n) e
+  | Grp _ _ e => mod_over_nested_at cfg pre e
+  | Boost _ e _ _ => (single_leaf e && chain_crosses cfg pre e) || mod_over_nested_at cfg pre e
+  | Fuzzy _ x _ _ | Proximity _ x _ _ =>
+      (single_leaf x && chain_crosses cfg pre x) || mod_over_nested_at cfg pre x
+  | Unary _ _ a | ORange _ _ a _ => mod_over_nested_at cfg pre a
+  | Op _ _ ops => existsb (mod_over_nested_at cfg pre) ops
+  end.
+Definition modifier_over_nested (cfg : es_config) (t : item) : bool := mod_over_nested_at cfg [] t.
 
 (* the kind of bool clause an operation / unary operator becomes *)
 Definition ekind (cfg : es_config) (t : item) : eopk :=
@@ -254,9 +308,13 @@ Definition ekind (cfg : es_config) (t : item) : eopk :=
 Definition tagz (z : option str) (lf : bool) (ls : list leaf) : list leaf :=
   match z with Some s => if lf then map (leaf_set_ztq s) ls else ls | None => ls end.
 
-Fixpoint xl (cfg : es_config) (env : es_env) (t : item) (cx : ectx) : list leaf :=
+(* a ~ / ^ applies to the single leaf below it (through parentheses, field wrappers and other modifiers),
+   whether or not a field in between crosses a nested boundary; around anything else (an operation, a negation)
+   it is ignored (stated assumption of the property: "around something that is not a single leaf clause") *)
+Fixpoint xl (cfg : es_config) (t : item) (cx : ectx) : list leaf :=
   let cx' := propagate_name t cx in
-  let sub (c : item) := tagz (ztq_of_op (ekind cfg t)) (leafy cfg env c cx') (xl cfg env c cx') in
+  let sub (c : item) :=
+    tagz (ztq_of_op (ekind cfg t)) (direct_leaf cfg (field_prefix cx') c) (xl cfg c cx') in
   match t with
   | Term KWord _ v => [word_leaf cfg t v cx]
   | Term KPhrase _ v => [phrase_leaf cfg t v cx]
@@ -268,25 +326,25 @@ Fixpoint xl (cfg : es_config) (env : es_env) (t : item) (cx : ectx) : list leaf 
                     (ctx_fields cfg cx) (get_name t cx)]
       | _, _ => []
       end
-  | SearchField _ n e => xl cfg env e (field_ctx cfg t n cx)
-  | Grp _ _ e => xl cfg env e cx'
+  | SearchField _ n e => xl cfg e (field_ctx cfg t n cx)
+  | Grp _ _ e => xl cfg e cx'
   | Boost _ e f _ =>
-      if leafy cfg env e cx' then map (leaf_set_boost f) (xl cfg env e cx') else xl cfg env e cx'
+      if single_leaf e then map (leaf_set_boost f) (xl cfg e cx') else xl cfg e cx'
   | Fuzzy _ x d _ =>
-      if leafy cfg env x cx' then map (leaf_set_fuzziness d) (xl cfg env x cx') else xl cfg env x cx'
+      if single_leaf x then map (leaf_set_fuzziness d) (xl cfg x cx') else xl cfg x cx'
   | Proximity _ x z _ =>
-      if leafy cfg env x cx'
+      if single_leaf x
       then map (if ctx_is_analyzed cfg cx then leaf_set_slop (dec_of_Z z)
-                else leaf_set_fuzziness (dec_of_Z z)) (xl cfg env x cx')
-      else xl cfg env x cx'
+                else leaf_set_fuzziness (dec_of_Z z)) (xl cfg x cx')
+      else xl cfg x cx'
   | Op _ _ ops => (fix go (l : list item) : list leaf :=
                      match l with [] => [] | c :: l' => sub c ++ go l' end) ops
   | Unary _ _ a => sub a
-  | ORange _ _ a _ => xl cfg env a cx'
+  | ORange _ _ a _ => xl cfg a cx'
   | NoneItem _ => []
   end.
 
-Definition expected_leaves (cfg : es_config) (t : item) : list leaf := xl cfg (mk_env cfg) t ctx0.
+Definition expected_leaves (cfg : es_config) (t : item) : list leaf := xl cfg t ctx0.
 
 (* the leaf clauses of a bool / nested query, in document order *)
 Fixpoint leaves (j : json) : list json :=
